@@ -6,14 +6,14 @@ proof:  Props/SQLGEN.v.  Model/SqlGen.v transcribes every `*_to_near_sql` of dat
         (unbounded over pipelines, tables, requests): for table / select_rows / select / drop / rename / map_columns / order_rows /
         project / un-windowed extend incl. the SQL-level merge / concat_rows / natural_join written as a join (INNER, LEFT; RIGHT and
         FULL where the dialect does not rewrite them: PostgreSQLModel, FULL also on SQLiteModel with SQLite >= 3.39; generator as of
-        6d4c3d4) / windowed extend (when the dialect does not merge at SQL level; when it does, wherever extend_to_near_sql has no merge to
-        attempt around it: source step not an extend step, not read by an extend / id-column concat directly or through select / drop_columns)
+        6d4c3d4) / windowed extend for every dialect, incl. the SQL-level extend merge around it (windowed extend folded into the extend below, an
+        extend or the id-column extend of concat_rows folded into a windowed step, through select / drop_columns too)
         the generated query asked for any part C of `using` returns exactly the reference table (Model/Sem.v) restricted to C;
         the whole query returns every declared column with the reference rows in the reference order; a request for no column
         keeps the row count; generated view names are pairwise distinct (all node kinds); the pre-c520ee9 / pre-6f11e66
         generators are refuted.  The SQLite rewrites of a join (RIGHT as swapped LEFT, FULL on SQLite < 3.39) are transcribed
-        and tied but their semantic theorem is not proved; for a windowed extend that IS merged at SQL level the SELECT-level equation is proved
-        (SQLGEN_window_merge_partial: the window_vars contention test) and the generator without order columns in window_vars is refuted.
+        and tied but their semantic theorem is not proved.  SQLGEN_window_merge_partial is the SELECT-level equation of one merge with window
+        items (the window_vars contention test), used by the induction; the generator without order columns in window_vars is refuted.
 tie:    (a) STRUCTURAL  the REAL NearSQL object graph from ops.to_near_sql_implementation_ (serialised field by field as C04 does;
             annotation / ops_key left out) must be `erase (to_near ...)`, decided inside Coq (Model/SqlGenCases.v CStruct): view names
             canonicalised by first appearance; terms / container columns / declared dependencies as multisets (Python set iteration);
@@ -386,7 +386,7 @@ def run(chk):
         "annotation and ops_key of NearSQL steps are not modelled (C04 models them); WITH-form / CTE elimination is C04's theorem",
         "stored tables have exactly the declared columns (wf_env); SELECT-list order built from Python sets is compared as a multiset",
         "the semantic theorems cover the fragment `stage1` (see Props/SQLGEN.v): a natural_join the dialect REWRITES (SQLiteModel: RIGHT as the swapped LEFT "
-        "join; FULL on SQLite < 3.39), a windowed extend merged (or mergeable) with an extend next to it at SQL level and an id-column concat_rows over an unlimited order_rows are covered by the "
+        "join; FULL on SQLite < 3.39) and an id-column concat_rows over an unlimited order_rows are covered by the "
         "two ties only; natural_join written as a join is covered by the theorems for the generator since /repo 6d4c3d4 (d_join_carry = true, probed here)",
         "the list-based SQL semantics fixes one row order (input order kept by every step but ORDER BY); real engines may return another "
         "order where SQL leaves it open -- rows are compared as multisets unless the pipeline ends in a total order_rows",
